@@ -20,7 +20,7 @@ RULE = (
     "generated: (engine) 1..6 handlers in generated registration order with accepted-verb sets, raising handle() / on_handled / "
     "can_handle, remove-on-handle flags; 0..14 datagrams (known, unknown verbs, duplicates) at generated virtual times and floods of 5..40 "
     "datagrams 1..21 ms apart (engine iterations faster than the send throttle); bursts of "
-    "1..5 queued sends; 0..3 requests with timeout T in {1,2.5,4} s and N in 0..6 retries, answered at a generated time / never "
+    "1..5 queued sends (one of them possibly untransmittable: no send_bytes / no destination); 0..3 requests with timeout T in {1,2.5,4} s and N in 0..6 retries, answered at a generated time / never "
     "/ reply claimed by an earlier handler; (handshake) per step (version, channel, config file, status block) 0..10 destroyed "
     "attempts of kinds {request lost, reply lost, middle segments lost, final segment lost, all segments lost} followed by a clean "
     "attempt, on a shipped snapshot. Non-trivial = >=2 handlers accepting one datagram, or a request that is retried, or losses in "
@@ -49,7 +49,8 @@ def strategy(tier):
                         st.sampled_from(["ok", "ok", "ok", "handle", "callback", "can_handle"]), st.sampled_from([False, False, True]))
     tm = st.integers(0, 240).map(lambda x: x / 20.0)
     dgram = st.tuples(tm, st.integers(0, 6)).map(list)  # verb 5 = unknown, 6 = request reply verb family
-    burst = st.tuples(tm, st.integers(1, 5)).map(list)
+    # third element: which send of the burst cannot be transmitted (0 = none, k = the k-th has no send_bytes, -k = the k-th has no destination)
+    burst = st.tuples(tm, st.integers(1, 5), st.sampled_from([0, 0, 1, 2, -1, -3])).map(list)
     req = st.builds(lambda t, T, N, a, steal: {"t": t, "T": T, "N": N, "answer": a, "shadow": steal},
                     tm, st.sampled_from([1.0, 1.0, 2.5, 4.0]), st.integers(0, 6),
                     st.one_of(st.none(), st.integers(0, 400).map(lambda x: x / 20.0)), st.sampled_from([False, False, False, True]))
@@ -90,7 +91,7 @@ def _part_engine(res, case):
     ev = []          # unified event log
     qlog = []        # (time, hid) in queue_send order
     eng = _Eng(ev)
-    info = {"multi": False, "retried": False}
+    info = {"multi": False, "retried": False, "bad_send": False}
 
     with eng.patched():
         sock = eng.attach(GeckoUdpSocket())
@@ -171,8 +172,8 @@ def _part_engine(res, case):
         # scheduled harness actions
         actions = []
         sid = [0]
-        for t, k in case.get("bursts", [])[:2]:
-            actions.append((float(t), "burst", min(int(k), 5)))
+        for b in case.get("bursts", [])[:2]:
+            actions.append((float(b[0]), "burst", (min(int(b[1]), 5), int(b[2]) if len(b) > 2 else 0)))
         for r in reqs:
             actions.append((r["t"], "request", r))
         actions.sort(key=lambda a: a[0])
@@ -186,10 +187,17 @@ def _part_engine(res, case):
             while actions and actions[0][0] <= now:
                 _, kind, arg = actions.pop(0)
                 if kind == "burst":
-                    for _ in range(min(arg, 6)):
-                        s = H(f"s{sid[0]}", [], send_bytes=b"SEND%03d" % sid[0])
+                    count, bad = arg
+                    for i in range(count):
+                        if bad and i + 1 == abs(bad):
+                            # a send that cannot be transmitted: building it raises (no send_bytes) or it has no destination
+                            s = H(f"x{sid[0]}", [], **({} if bad > 0 else {"send_bytes": b"NODEST"}))
+                            info["bad_send"] = True
+                            sock.queue_send(s, DEST if bad > 0 else None)
+                        else:
+                            s = H(f"s{sid[0]}", [], send_bytes=b"SEND%03d" % sid[0])
+                            sock.queue_send(s, DEST)
                         sid[0] += 1
-                        sock.queue_send(s, DEST)
                 else:
                     r = arg
                     if r["shadow"]:
@@ -216,7 +224,7 @@ def _part_engine(res, case):
 
         eng.on_iteration = on_iteration
         eng.max_iterations = 200000
-        eng.stop_when = lambda: vt.t - t0 > horizon and not actions and not eng.inbox and not sock._send_handlers
+        eng.stop_when = lambda: vt.t - t0 > horizon and not actions and not eng.inbox and (not sock._send_handlers or vt.t - t0 > horizon + 30)
         try:
             eng.run()
         except Exception as exc:  # noqa
@@ -232,8 +240,8 @@ def _part_engine(res, case):
     sent = [(t, d) for t, d, _ in eng.sent]
     exp_order = []
     for t, hid, dest in qlog:
-        if hid is None:
-            continue
+        if hid is None or hid.startswith("x"):
+            continue   # x..: a send that cannot be transmitted; it must be dropped without holding up the queue
         exp_order.append(hs[hid]._send_bytes if hid in hs else b"SEND%03d" % int(hid[1:]))
     got_order = [d for _, d in sent]
     if got_order != exp_order:
@@ -453,6 +461,8 @@ def run_case(case) -> Result:
             res.label("engine-request-retried")
         if any(h.get("mode") in ("handle", "callback", "can_handle") for h in case.get("handlers", [])):
             res.label("engine-raising-handler")
+        if info["bad_send"]:
+            res.label("engine-untransmittable-send")
     elif part == "handshake":
         plan = _part_handshake(res, case)
         lossy = sum(1 for v in plan.values() if v)
